@@ -32,3 +32,228 @@ pub proof fn lemma_cs_first_found(s: Seq<(&Tid, &ExternSymbol)>, m: Map<Tid, Ext
         }
     }
 }
+
+/// exit clause of the loops over `subs.values()`: a witnessed post is a post.  Quantified over the iteration and the call
+/// list so that it can be called at function entry (no anchor to lose); fires on the goal `cs_prog_calls_post(..)` once
+/// `cs_iter_of(seq, subs)` is around.
+pub proof fn lemma_cs_prog_calls_exit<'a>(subs: Map<Tid, Term<Sub>>, m: Map<&'a Tid, &'a str>)
+    ensures forall |s: Seq<(&Tid, &Term<Sub>)>, v: Seq<(&'a str, &'a Tid, &'a str)>|
+        #![trigger cs_iter_of(s, subs), cs_prog_calls_post(v, subs, m)]
+        cs_prog_calls_wit(s, v, subs, m) ==> cs_prog_calls_post(v, subs, m)
+{
+}
+
+/// on a list of Strings "some entry equals x" (specification equality) and "some entry has the characters of x" are the same
+pub proof fn lemma_cs_among_on_list(l: Seq<String>, x: String)
+    ensures cs_str_among(l, l.len() as int, x) <==> cs_on_list(l, x@)
+{
+    if cs_on_list(l, x@) {
+        let j = choose |j: int| 0 <= j < l.len() && (#[trigger] l[j])@ == x@;
+        axiom_cs_string_ext(l[j], x);
+        assert(l[j] == x);
+    }
+    if cs_str_among(l, l.len() as int, x) {
+        let j = choose |j: int| 0 <= j < l.len() && #[trigger] l[j] == x;
+        assert(l[j]@ == x@);
+    }
+}
+
+/// exit clause of the second loop of resolve_symbols (callable at function entry: quantified over iteration and map)
+pub proof fn lemma_cs_resolved_exit<'a>(ext: Map<Tid, ExternSymbol>, l: Seq<String>)
+    ensures forall |s: Seq<(&Tid, &ExternSymbol)>, r: Map<&'a Tid, &'a str>|
+        #![trigger cs_iter_of(s, ext), cs_resolved(r, ext, l)]
+        cs_iter_of(s, ext) && cs_resolved_partial(r, ext, l, s, s.len() as int) ==> cs_resolved(r, ext, l)
+{
+    assert forall |s: Seq<(&Tid, &ExternSymbol)>, r: Map<&'a Tid, &'a str>|
+        cs_iter_of(s, ext) && cs_resolved_partial(r, ext, l, s, s.len() as int) implies cs_resolved(r, ext, l) by {
+        assert forall |t: Tid| #[trigger] r.contains_key(&t) <==> ext.contains_key(t) && cs_on_list(l, ext[t].name@) by {
+            lemma_cs_among_on_list(l, ext[t].name);
+            if ext.contains_key(t) {
+                let j = choose |j: int| 0 <= j < s.len() && *(#[trigger] s[j]).0 == t;
+                assert(cs_visited(s, s.len() as int, t));
+            }
+            if cs_visited(s, s.len() as int, t) {
+                let j = choose |j: int| 0 <= j < s.len() && *(#[trigger] s[j]).0 == t;
+                assert(ext.contains_key(*s[j].0));
+            }
+        }
+    }
+}
+
+/// hit lists only depend on the extension of the predicate (spec_fn extensionality) -- stated for the case needed:
+/// the key set of a symbol map that agrees with a predicate
+pub proof fn lemma_cs_in_syms_is<'a>(m: Map<&'a Tid, &'a str>, p: spec_fn(Tid) -> bool)
+    requires forall |t: Tid| #[trigger] m.contains_key(&t) <==> p(t)
+    ensures cs_in_syms(m) == p
+{
+    assert(cs_in_syms(m) =~= p);
+}
+
+/// warnings made one per entry of a call list that stands for a hit list are warnings for the hits
+pub proof fn lemma_cs_warns_calls_hits<'a>(ws: Seq<CweWarning>, v: Seq<(&'a str, &'a Tid, &'a str)>, h: Seq<CsHit>, m: Map<&'a Tid, &'a str>)
+    requires cs_warns_for_calls(ws, v), cs_calls_are(v, h, m)
+    ensures cs_warns_for_hits(ws, h)
+{
+    assert forall |i: int| 0 <= i < ws.len() implies cs_warn_for(#[trigger] ws[i], h[i].sub_name, h[i].jmp_tid) by {
+        assert(v[i].0@ == h[i].sub_name);
+    }
+}
+
+/// COMPOSITION of cwe_676::check_cwe (callable at function entry; fires on the three callee postconditions)
+pub proof fn lemma_cs_676_compose<'a>(subs: Map<Tid, Term<Sub>>, ext: Map<Tid, ExternSymbol>, l: Seq<String>)
+    ensures forall |m: Map<&'a Tid, &'a str>, v: Seq<(&'a str, &'a Tid, &'a str)>, ws: Seq<CweWarning>|
+        #![trigger cs_resolved(m, ext, l), cs_prog_calls_post(v, subs, m), cs_warns_for_calls(ws, v)]
+        cs_resolved(m, ext, l) && cs_prog_calls_post(v, subs, m) && cs_warns_for_calls(ws, v)
+            ==> cs_warns_per_call(ws, subs, cs_dangerous(ext, l))
+{
+    assert forall |m: Map<&'a Tid, &'a str>, v: Seq<(&'a str, &'a Tid, &'a str)>, ws: Seq<CweWarning>|
+        cs_resolved(m, ext, l) && cs_prog_calls_post(v, subs, m) && cs_warns_for_calls(ws, v)
+        implies cs_warns_per_call(ws, subs, cs_dangerous(ext, l)) by {
+        let s = choose |s: Seq<(&Tid, &Term<Sub>)>| #[trigger] cs_prog_calls_wit(s, v, subs, m);
+        lemma_cs_in_syms_is(m, cs_dangerous(ext, l));
+        lemma_cs_warns_calls_hits(ws, v, cs_subs_hits(s, cs_dangerous(ext, l), s.len() as int), m);
+        assert(cs_warns_per_call_wit(s, ws, subs, cs_dangerous(ext, l)));
+    }
+}
+
+/// exit clause of the loops that make warnings while iterating `subs.values()` (callable before the loop), and the
+/// case of a program without functions (needed for "the invariant holds before the loop")
+pub proof fn lemma_cs_warns_exit(subs: Map<Tid, Term<Sub>>, p: spec_fn(Tid) -> bool, ws0: Seq<CweWarning>)
+    ensures
+        forall |s: Seq<(&Tid, &Term<Sub>)>, ws: Seq<CweWarning>|
+            #![trigger cs_iter_of(s, subs), cs_warns_per_call(ws, subs, p)]
+            cs_warns_per_call_wit(s, ws, subs, p) ==> cs_warns_per_call(ws, subs, p),
+        forall |s: Seq<(&Tid, &Term<Sub>)>| #[trigger] cs_iter_of(s, subs) && s.len() == 0 && ws0.len() == 0 ==> cs_warns_per_call(ws0, subs, p),
+{
+    assert forall |s: Seq<(&Tid, &Term<Sub>)>| #[trigger] cs_iter_of(s, subs) && s.len() == 0 && ws0.len() == 0 implies cs_warns_per_call(ws0, subs, p) by {
+        assert(cs_warns_per_call_wit(s, ws0, subs, p));
+    }
+}
+
+/// COMPOSITION of the checks built on find_symbol + "calls to that one symbol" (cwe_782): callable at function entry
+pub proof fn lemma_cs_named_compose<'a>(subs: Map<Tid, Term<Sub>>, ext: Map<Tid, ExternSymbol>, name: Seq<char>)
+    ensures forall |m: Map<&'a Tid, &'a str>, t: &'a Tid, n: &'a str, ws: Seq<CweWarning>|
+        #![trigger cs_find_symbol_post(ext, name, Some((t, n))), cs_warns_per_call(ws, subs, cs_in_syms(m))]
+        cs_find_symbol_post(ext, name, Some((t, n))) && (forall |x: Tid| #[trigger] m.contains_key(&x) <==> x == *t)
+            && cs_warns_per_call(ws, subs, cs_in_syms(m)) ==> cs_warns_calls_to_named(ws, subs, ext, name)
+{
+    assert forall |m: Map<&'a Tid, &'a str>, t: &'a Tid, n: &'a str, ws: Seq<CweWarning>|
+        #![trigger cs_find_symbol_post(ext, name, Some((t, n))), cs_warns_per_call(ws, subs, cs_in_syms(m))]
+        cs_find_symbol_post(ext, name, Some((t, n))) && (forall |x: Tid| #[trigger] m.contains_key(&x) <==> x == *t)
+            && cs_warns_per_call(ws, subs, cs_in_syms(m)) implies cs_warns_calls_to_named(ws, subs, ext, name) by {
+        let k = choose |k: Tid| #[trigger] cs_first_named(ext, name, k) && *t == ext[k].tid && n@ == name;
+        lemma_cs_in_syms_is(m, cs_is_tid(ext[k].tid));
+        assert(cs_named(ext, name));
+    }
+}
+
+// ---- find_symbol as a function: the first symbol with a name is unique ------------------------------------------------------
+
+pub proof fn lemma_cs_first_unique(ext: Map<Tid, ExternSymbol>, name: Seq<char>, k1: Tid, k2: Tid)
+    requires vstd::laws_cmp::obeys_cmp::<Tid>(), cs_first_named(ext, name, k1), cs_first_named(ext, name, k2)
+    ensures k1 == k2
+{
+    if k1 != k2 {
+        assert(cs_tid_lt(k1, k2));
+        assert(cs_tid_lt(k2, k1));
+        reveal(vstd::laws_cmp::obeys_cmp);
+        reveal(vstd::laws_cmp::obeys_cmp_ord);
+        reveal(vstd::laws_cmp::obeys_cmp_partial_ord);
+        reveal(vstd::laws_cmp::obeys_partial_cmp_spec_properties);
+        reveal(vstd::laws_eq::obeys_eq_spec_properties);
+    }
+}
+
+/// what a result of find_symbol says about cs_found_tid (callable at function entry: fires on the postcondition of find_symbol)
+pub proof fn lemma_cs_found_one<'a>(ext: Map<Tid, ExternSymbol>, name: Seq<char>)
+    requires vstd::laws_cmp::obeys_cmp::<Tid>()
+    ensures forall |r: Option<(&'a Tid, &'a str)>| #[trigger] cs_find_symbol_post(ext, name, r) ==> match r {
+        Some((t0, n0)) => cs_named(ext, name) && (forall |t: Tid| #[trigger] cs_found_tid(ext, name, t) <==> t == *t0),
+        None => !cs_named(ext, name) && (forall |t: Tid| !#[trigger] cs_found_tid(ext, name, t)),
+    }
+{
+    assert forall |r: Option<(&'a Tid, &'a str)>| #[trigger] cs_find_symbol_post(ext, name, r) implies match r {
+        Some((t0, n0)) => cs_named(ext, name) && (forall |t: Tid| #[trigger] cs_found_tid(ext, name, t) <==> t == *t0),
+        None => !cs_named(ext, name) && (forall |t: Tid| !#[trigger] cs_found_tid(ext, name, t)),
+    } by {
+        match r {
+            Some((t0, n0)) => {
+                let k0 = choose |k: Tid| #[trigger] cs_first_named(ext, name, k) && *t0 == ext[k].tid && n0@ == name;
+                assert(cs_named(ext, name));
+                assert forall |t: Tid| #[trigger] cs_found_tid(ext, name, t) <==> t == *t0 by {
+                    if cs_found_tid(ext, name, t) {
+                        let k = choose |k: Tid| #[trigger] cs_first_named(ext, name, k) && t == ext[k].tid;
+                        lemma_cs_first_unique(ext, name, k, k0);
+                    }
+                }
+            },
+            None => {
+                assert forall |t: Tid| !#[trigger] cs_found_tid(ext, name, t) by {
+                    if cs_found_tid(ext, name, t) {
+                        let k = choose |k: Tid| #[trigger] cs_first_named(ext, name, k) && t == ext[k].tid;
+                        assert(cs_named(ext, name));
+                    }
+                }
+            },
+        }
+    }
+}
+
+/// one step of the loop of cwe_426 over the configured names
+pub proof fn lemma_cs_found_step<'a>(ext: Map<Tid, ExternSymbol>, l: Seq<String>, i: int)
+    requires vstd::laws_cmp::obeys_cmp::<Tid>(), 0 <= i < l.len()
+    ensures forall |r: Option<(&'a Tid, &'a str)>| #[trigger] cs_find_symbol_post(ext, l[i]@, r) ==> match r {
+        Some((t0, n0)) => cs_named(ext, l[i]@) && (forall |t: Tid| #[trigger] cs_found_any_tid(ext, l, i + 1, t) <==> cs_found_any_tid(ext, l, i, t) || t == *t0),
+        None => !cs_named(ext, l[i]@) && (forall |t: Tid| #[trigger] cs_found_any_tid(ext, l, i + 1, t) <==> cs_found_any_tid(ext, l, i, t)),
+    },
+        cs_any_named(ext, l, i + 1) <==> cs_any_named(ext, l, i) || cs_named(ext, l[i]@),
+{
+    if cs_any_named(ext, l, i + 1) {
+        let j = choose |j: int| 0 <= j < i + 1 && cs_named(ext, (#[trigger] l[j])@);
+        if j < i { assert(cs_any_named(ext, l, i)); }
+    }
+    if cs_any_named(ext, l, i) {
+        let j = choose |j: int| 0 <= j < i && cs_named(ext, (#[trigger] l[j])@);
+        assert(0 <= j < i + 1);
+    }
+    lemma_cs_found_one(ext, l[i]@);
+    assert forall |r: Option<(&'a Tid, &'a str)>| #[trigger] cs_find_symbol_post(ext, l[i]@, r) implies match r {
+        Some((t0, n0)) => cs_named(ext, l[i]@) && (forall |t: Tid| #[trigger] cs_found_any_tid(ext, l, i + 1, t) <==> cs_found_any_tid(ext, l, i, t) || t == *t0),
+        None => !cs_named(ext, l[i]@) && (forall |t: Tid| #[trigger] cs_found_any_tid(ext, l, i + 1, t) <==> cs_found_any_tid(ext, l, i, t)),
+    } by {
+        assert forall |t: Tid| #[trigger] cs_found_any_tid(ext, l, i + 1, t) <==> cs_found_any_tid(ext, l, i, t) || cs_found_tid(ext, l[i]@, t) by {
+            if cs_found_any_tid(ext, l, i + 1, t) {
+                let j = choose |j: int| 0 <= j < i + 1 && cs_found_tid(ext, (#[trigger] l[j])@, t);
+                if j < i { assert(cs_found_any_tid(ext, l, i, t)); }
+            }
+            if cs_found_any_tid(ext, l, i, t) {
+                let j = choose |j: int| 0 <= j < i && cs_found_tid(ext, (#[trigger] l[j])@, t);
+                assert(0 <= j < i + 1);
+            }
+        }
+    }
+}
+
+
+/// exit clause of the loop of cwe_426 over `subs.values()`
+pub proof fn lemma_cs_per_sub_exit(subs: Map<Tid, Term<Sub>>, p1: spec_fn(Tid) -> bool, p2: spec_fn(Tid) -> bool)
+    ensures
+        forall |s: Seq<(&Tid, &Term<Sub>)>, ws: Seq<CweWarning>|
+            #![trigger cs_iter_of(s, subs), cs_warns_per_sub(ws, subs, p1, p2)]
+            cs_warns_per_sub_wit(s, ws, subs, p1, p2) ==> cs_warns_per_sub(ws, subs, p1, p2),
+{
+}
+
+/// a map has no key  <==>  `is_empty()` (its length is 0)
+pub proof fn lemma_cs_map_empty<'a>(m: Map<&'a Tid, &'a str>)
+    requires m.dom().finite()
+    ensures m.len() == 0 <==> (forall |t: Tid| !#[trigger] m.contains_key(&t))
+{
+    vstd::set_lib::lemma_set_empty_equivalency_len(m.dom());
+    assert(m.len() == m.dom().len());
+    if m.len() == 0 { assert(m.dom() =~= Set::empty()); }
+    if forall |t: Tid| !#[trigger] m.contains_key(&t) {
+        assert forall |k: &'a Tid| !m.dom().contains(k) by { assert(!m.contains_key(&*k)); }
+        assert(m.dom() =~= Set::empty());
+    }
+}
